@@ -42,8 +42,10 @@ struct MessageAdmission<'a>(&'a ActorProperties);
 
 impl Drop for MessageAdmission<'_> {
     fn drop(&mut self) {
+        verif_point!("admission_drop:before_fetch_sub");
         let previous = self.0.message_admission.fetch_sub(1, Ordering::AcqRel);
         debug_assert_ne!(previous & MESSAGE_ADMISSION_COUNT_MASK, 0);
+        verif_point!("admission_drop:after_fetch_sub");
         if previous & MESSAGE_ADMISSION_CLOSED != 0 && previous & MESSAGE_ADMISSION_COUNT_MASK == 1
         {
             let _ = self.0.send_drain_marker();
@@ -196,6 +198,7 @@ impl ActorProperties {
         TMessage: Message,
     {
         let status = self.get_status();
+        verif_point!("send:after_status_load");
         if status >= ActorStatus::Draining {
             // if currently draining, stopping or stopped: reject messages directly.
             return Err(MessagingErr::SendErr(message));
@@ -204,9 +207,11 @@ impl ActorProperties {
         let Some(_admission) = self.try_admit_message() else {
             return Err(MessagingErr::SendErr(message));
         };
+        verif_point!("send:after_admission");
         let boxed = message
             .box_message(&self.id)
             .map_err(|_e| MessagingErr::InvalidActorType)?;
+        verif_point!("send:before_enqueue");
         self.message
             .send(MuxedMessage::Message(boxed))
             .map_err(|e| match e.0 {
@@ -222,6 +227,7 @@ impl ActorProperties {
                 return None;
             }
             debug_assert!(state & MESSAGE_ADMISSION_COUNT_MASK < MESSAGE_ADMISSION_COUNT_MASK);
+            verif_point!("try_admit:before_cas");
 
             match self.message_admission.compare_exchange_weak(
                 state,
@@ -242,6 +248,7 @@ impl ActorProperties {
 
     fn send_drain_marker(&self) -> Result<(), MessagingErr<()>> {
         let mut state = self.message_admission.load(Ordering::Acquire);
+        verif_point!("drain_marker:after_load");
         loop {
             if state & MESSAGE_ADMISSION_CLOSED == 0
                 || state & MESSAGE_ADMISSION_COUNT_MASK != 0
@@ -257,6 +264,7 @@ impl ActorProperties {
                 Ordering::Acquire,
             ) {
                 Ok(_) => {
+                    verif_point!("drain_marker:between_cas_and_enqueue");
                     return self
                         .message
                         .send(MuxedMessage::Drain)
@@ -268,7 +276,9 @@ impl ActorProperties {
     }
 
     pub(crate) fn drain(&self) -> Result<(), MessagingErr<()>> {
+        verif_point!("drain:before_close");
         self.close_message_admission();
+        verif_point!("drain:after_close");
         let _ = self
             .status
             .fetch_update(Ordering::SeqCst, Ordering::SeqCst, |f| {
@@ -278,6 +288,7 @@ impl ActorProperties {
                     None
                 }
             });
+        verif_point!("drain:after_status_publish");
         self.send_drain_marker()
     }
 
@@ -300,6 +311,7 @@ impl ActorProperties {
         let Some(_admission) = self.try_admit_message() else {
             return Err(Box::new(MessagingErr::SendErr(message)));
         };
+        verif_point!("send_serialized:after_admission");
         let boxed = BoxedMessage {
             msg: None,
             serialized_msg: Some(message),
@@ -342,7 +354,9 @@ impl ActorProperties {
     /// Wait for the actor to exit
     pub(crate) async fn wait(&self) {
         let notified = self.wait_handler.notified();
+        verif_point!("wait:after_notified_created");
         if self.get_status() != ActorStatus::Stopped {
+            verif_point!("wait:after_status_check");
             notified.await;
         }
     }
@@ -358,7 +372,9 @@ impl ActorProperties {
     }
 
     pub(crate) fn notify_stop_listener(&self) {
+        verif_point!("notify_stop:before_notify_waiters");
         self.wait_handler.notify_waiters();
+        verif_point!("notify_stop:between_notifies");
         // Preserve one permit for a waiter created after the actor stopped.
         self.wait_handler.notify_one();
     }
